@@ -387,7 +387,7 @@ describe = _safe(describe, lambda t, e: {"raw": (t or [])[:200], "decode_error":
 if __name__ == "__main__":
     ctx = Ctx("C05")
     ctx.assumptions = [
-        "limiter: the atomic sections are the mutex-protected methods (AddDialJob, finishedDial, clearAllPeerDials) plus the two unlocked points of executeDial (the initial cancelled() test, the return of dialFunc); context cancellation may fall anywhere between them; theorems hold for every interleaving at that granularity",
+        "limiter: the atomic sections are the mutex-protected methods (AddDialJob, finishedDial, clearAllPeerDials) plus the two unlocked points of executeDial (the initial cancelled() test, the return of dialFunc); context cancellation may fall anywhere between them; theorems hold for every interleaving at that granularity. The delivery of a result (select between the send on the response channel and ctx.Done) is part of the LReturn step; a result that finds no receiver keeps executeDial parked without touching the limiter, which the correspondence exercises with hold jobs (unbuffered, undrained response channel): the return of their dialFunc is not recorded, the cancellation of their context is wire stimulus 5 = the model history 'cancel, then return', with one observation taken while the goroutine is parked in the delivery and one after the cancellation, when the attempt has to be gone (residue clause)",
         "limiter: Go int modelled as unbounded Z; logging ignored; a job is (identity, peer, shouldConsumeFd(addr), context id) - shouldConsumeFd itself is evaluated by the real code in the harness",
         "limits: 0 <= fdLimit, perPeerLimit for the caps, 1 <= for the no-residue theorem; the compiled-in ConcurrentFdDials / DefaultPerPeerRateLimit are re-read each run (obligation c05_default_caps_wf)",
         "worker: one event = one iteration of the select in dialWorker.loop; theorems hold for every order of request / timer / dial-update / close events and every environment answer carried by the event (existing connection, ranking, back-off table, addConn verdict, clock). wf_run: request ids fresh, each ranking lists an address once (c05_ranker_is_permutation + ma.Unique), a dial update arrives only for a dial in flight and is never ErrDialBackoff itself",
@@ -400,6 +400,7 @@ if __name__ == "__main__":
         "HEADLINE (composite monitor): c05_composite_monitor_accepts proves that the DialPeer monitor (clauses 1-7 and 9) accepts every trace of the composite model under the harness-level semantics, for every sequence of stimuli that satisfies SpecDialPeer.wf_stims_b (fresh caller ids, repetition-free rankings with delays in [0, 2 s), non-negative clock advances; the driver evaluates the same boolean on every recorded case and rejects the case otherwise) and limits >= 1. The harness-level semantics is presented as a relation (Proofs_CompositeH.hstep) whose moves carry the oracle answers the semantics gives them; its drain runs as many rounds as a bound computed from the state (SpecComposite.phi) and c05_composite_drain_quiescent proves that it ends in a state in which nothing can move. Clause 8 (the case ends with every caller returned) is a statement about how the harness ends a case, not about the model. The harness-level semantics lets a cancelled caller take its ctx.Done case first (the harness never has a response pending at that point); dial results of kind progress (TCP connection established, upgrade pending) are not produced by the DialPeer harness and are excluded from the composite headline (the worker-level theorems cover them). Concurrency finer than the listed atomic sections is covered by the correspondence only. Clauses 10 (ranking names an address once), 11 (a call returns an error only when every address of its ranking has failed - a connection to another peer counts as a failure of that address - or been in back-off) and 12 (after 2 s, no worker parked, no limiter cap reached: every address of a waiting caller's ranking has been handed to a transport or has been in back-off since that caller called; the back-off of the peer may expire in mid-case, stimulus 5 -1) are evaluated by monitor_d_case on the implementation's traces only; the model replays the same traces (conformance), and their worker-level counterparts are proved (c05_worker_monitor_holds clause 3, c05_all_eligible_attempted)",
         "ranker: addresses are the tuple of answers of the predicates the ranker evaluates (recorded from the real predicates); sort.Slice is a Section hypothesis (permutes its input), instantiated with stable insertion sort (what sort.Slice runs for <= 12 elements; cases have <= 10 addresses)",
         "addrsForDial: modelled as the pure pipeline ModelAddrs.addrs_pipeline (resolve, strip /p2p, keep each address once, then filterKnownUndialables in the code's order: no transport -> reported; low priority among the DIALABLE ones; unspecified IP; relayed under ForceDirectDial). c05_addrs_pipeline_spec: an address is handed to the worker iff some entry resolves to it, the swarm has a transport for it, and none of the filters legitimately removes it - in particular a /ws (/webtransport) address only if a DIALABLE /tcp (/quic-v1) address of the same ip:port exists; c05_addrs_pipeline_once_and_errors: each once, and exactly the addresses without a transport are reported. ma.Unique (sort + drop equal neighbours) is modelled as a set operation. Tied to the code by wire kind 6: every addrsForDial answer the DialPeer harness obtains (swarms with all or a random subset of the tcp / ws / quic / webtransport fake transports, tcp+ws and quic+webtransport pairs on one ip:port, aliased address forms, scripted resolver) is compared with the pipeline (conformance) and judged by the proved characterisation (monitor). Not in the harness, hence not in the model: dial-to-self, link-local, gater refusals, black-hole detector (disabled). That dialPeer copies the reported addresses into the DialError it returns is not observed",
+        "DialPeer timeout / context deadline: a call made with network.WithDialPeerTimeout(dt) on a context with its own deadline has to end at min(call time + dt, deadline) ('... or the caller's context or the dial timeout ended'). In the composite model that instant is the caller's dial context becoming Done (KCancel), so wire stimulus 8 is decoded as KCancel and judged by monitor clause 2 (the caller has returned in that step with the context / deadline error). The harness takes dt and the deadline off the 1 ms grid of every other timer of a case (k ms + 500 us + caller id us), stops the virtual clock 1 ns before the instant, records the 1 ns step across it as stimulus 8 and adds the 1 ns to the next recorded clock advance",
         "black-hole detector and back-off expiry are inputs (BackoffBase is set to 24h in the worker harness so entries do not expire in a case)",
     ]
     standard_flow(ctx, dict(
@@ -415,7 +416,7 @@ if __name__ == "__main__":
              "synctest bubble (fdLimit, perPeerLimit 1..3 mostly; 1-3 peers; TCP, QUIC, relay, WS, WebTransport addresses so that "
              "shouldConsumeFd takes both values; shared contexts); after every stimulus fdConsuming, activePerPeer, both queues and the "
              "dialFunc invocations in progress are compared with the Coq model and judged by the monitor. Every case ends with all "
-             "contexts cancelled and everything released. Non-trivial = some job had to wait for a token. "
+             "contexts cancelled and everything released. In one case in three a quarter of the jobs have an unbuffered response channel nobody receives from: their dialFunc returns while the context is live (the result is being delivered, tokens held), other stimuli follow, then the context is cancelled (stimulus 5) - plus 6 fixed scenarios of that shape with waiters on both queues. Non-trivial = some job had to wait for a token. "
              "worker: seeded random cases against the real dialWorker on a real Swarm with scripted transports (every Dial parks until told how "
              "to end: fail / conn / context.Canceled / handshake progress / conn refused by addConn) in a synctest bubble with the real clock on "
              "virtual time: 1-6 requests with different address subsets, scripted ranking delays, simultaneous-connect and force-direct flags, "
@@ -427,14 +428,14 @@ if __name__ == "__main__":
              "context state and the returns of every step compared with the model (either cancel/close observation order accepted). Non-trivial = a caller "
              "was cancelled. DialPeer: seeded random cases of whole Swarm.DialPeer (real dialSync + worker + limiter with caps 1-3 / 1-4, scripted transports "
              "that hang until ended or cancelled): 1-7 addresses of mixed classes, back-off left before, up to 6 concurrent callers with independent "
-             "cancellation and flags, virtual time; half of the addresses are known to the peerstore literally, the others in a random set of forms that all "
+             "cancellation and flags, virtual time; in one case in three half of the calls carry a DialPeer timeout (40 ms .. 3 s) and a context deadline of their own (none / earlier / later / equal), and the clock advances stop at every instant at which such a call has to end (stimulus 8); half of the addresses are known to the peerstore literally, the others in a random set of forms that all "
              "mean the same transport address (literal, literal with a trailing /p2p/<peer>, a /dns4 name, and records of a /dnsaddr name giving the address, the "
              "address with /p2p/<peer>, or its /dns4 form; scripted resolver), with several DialPeer calls per case after the first one wrote the resolved addresses "
              "back to the peerstore; addresses are numbered after stripping /p2p, so that the monitor clauses 3 and 10 compare them as the code's de-duplication intends; "
              "one case in three runs on a swarm whose direct fake transport claims only a random subset of tcp / ws / quic-v1 / webtransport, and an address may be followed by its fallback on the same ip:port (/ws after /tcp, /webtransport after /quic-v1); "
              "every addrsForDial answer obtained on the way is a case of its own (kind 6) compared with ModelAddrs.addrs_pipeline and judged by SpecAddrs.should_dial; "
              "a scripted dial may also end with a connection authenticated as ANOTHER peer (recorded as a failure of that address), the back-off table of the peer may expire while callers wait, relays named by DNS over wss / webtransport / tcp (left unresolved: the circuit transport skips resolution; no ip:port, never dominated) are among the address kinds; "
-             "plus the fixed scenarios: wrong-peer connection first / last, back-off expiring before a second caller joins, a swarm with only the fallback transports and a peer advertising both on one ip:port, a /dnsaddr peer dialed again while its resolved address is cached, a caller cancelled while blocked sending its request, and the regression scenario of the repaired defect (a closed worker parked in the connection gater returns after a new active dial has "
+             "plus the fixed scenarios: wrong-peer connection first / last, back-off expiring before a second caller joins, a swarm with only the fallback transports and a peer advertising both on one ip:port, a /dnsaddr peer dialed again while its resolved address is cached, a caller cancelled while blocked sending its request, callers with dial timeout only / deadline later / earlier / equal next to a caller without either while every address hangs, and the regression scenario of the repaired defect (a closed worker parked in the connection gater returns after a new active dial has "
              "queued jobs); every observation replayed by the composite model (SpecComposite) and judged by the monitor. Non-trivial = two callers inside at once and a transport dial started. "
              "ranker: DefaultDialRanker on 0-10 real multiaddrs of 19 kinds, output compared element by element. Non-trivial = >= 3 addresses "
              "with both IP versions. distinct = distinct case lines.",
